@@ -662,6 +662,12 @@ def run_backend(tier, seed, backend, n=None, nproc=16):
     recipes = [gen(rng, backend) for _ in range(n)]
     # witnesses of the known findings and minimised past failures run first
     corpus = {"numpy": [{"values": [["bool", True], ["int", 1]], "npdtype": "object", "stream": "corpus:F21"},
+                        {"values": [["str", "1999"]], "stream": "corpus:F09n"}, {"values": [["str", "2020"], ["nan"]], "npdtype": "object", "stream": "corpus:F09n-b"},
+                        {"values": [["float", 1.0], ["nan"], ["float", 2.0]], "stream": "corpus:F42"},
+                        {"values": [["float", 1e300]], "stream": "corpus:fixed-F40"}, {"values": [["str", "2020-01-01 10:00+01:00"]], "stream": "corpus:fixed-F41"},
+                        {"values": [["complex", 1, 2]], "npdtype": "complex64", "stream": "corpus:fixed-F43"},
+                        {"values": [["str", "1.5"], ["NA"]], "npdtype": "object", "stream": "corpus:fixed-F30n"},
+                        {"values": [["str", "1+2j"], ["NaT"], ["str", "3j"]], "npdtype": "object", "stream": "corpus:fixed-F30n-b"},
                         {"values": [["complex", "nan", 0]], "stream": "corpus:fixed-F32"},
                         {"values": [["str", "no"], ["str", "yes"]], "stream": "corpus:fixed-F20"},
                         {"values": [["complex", 1, 0], ["complex", 2, 0]], "stream": "corpus:fixed-F19"},
